@@ -70,10 +70,13 @@ impl SourceSpan {
         }
     }
     pub fn join2(start: &dyn Located, end: &dyn Located) -> Self {
+        // The span of a nested element is itself computed by joining, so ask
+        // for it once (asking twice doubles the work at every level).
+        let start = start.span();
         Self {
-            start: start.span().start,
+            start: start.start,
             end: end.span().end,
-            file_id: start.span().file_id.clone(),
+            file_id: start.file_id,
         }
     }
     pub fn range(start: usize, end: usize) -> Self {
